@@ -72,10 +72,14 @@ func init() {
 	// two worlds per run: (0) every role store populated; (1) the single-value admin field left EMPTY (oracle admin, as in
 	// the default oracle genesis — no message can set it later) and a clp whitelist that lists only a stranger.  `reset`
 	// starts a new history for the model.
+	// (2) a sparse world on the main-net chain id: ADMIN for two accounts, ETHBRIDGE for one of the addresses compiled
+	// into x/admin/types — every other role has NO stored holder.
 	families["auth"] = func(rng *Rng, n int, out *Out, replay string) {
-		authWorld(rng, n*3/5, out, replay, 0)
+		authWorld(rng, n*2/5, out, replay, 0)
 		out.Emit("reset", "ok", "reset", false)
-		authWorld(rng, n, out, replay, 1)
+		authWorld(rng, n*7/10, out, replay, 1)
+		out.Emit("reset", "ok", "reset", false)
+		authWorld(rng, n, out, replay, 2)
 	}
 }
 
@@ -83,16 +87,21 @@ func authWorld(rng *Rng, n int, out *Out, replay string, variant int) {
 	{
 		sifapp.SetConfig(false)
 		// accounts
-		const NACC = 14
 		var addrs []sdk.AccAddress
-		for i := 0; i < NACC; i++ {
+		for i := 0; i < 14; i++ {
 			addrs = append(addrs, sdk.AccAddress([]byte(fmt.Sprintf("c08_account_%02d______", i))[:20]))
 		}
+		// … plus the addresses compiled into the repository (x/admin/types ProdAdminAccounts / InitialAdminAccounts)
+		addrs = append(addrs, builtinAdmins()...)
+		NACC := len(addrs)
+		chainID := worldChainID(rng, variant)
+		out.Extra[fmt.Sprintf("world%d_chain_id", variant)] = chainID
+		out.Extra["accounts"] = NACC
 		// the role stores come from the genesis file, in a mix of spellings (see roleGenesis)
 		app := sifapp.SetupFromGenesis(false, func(app *sifapp.SifchainApp, gs sifapp.GenesisState) sifapp.GenesisState {
 			return roleGenesis(app, gs, addrs, rng, variant)
 		})
-		ctx := app.BaseApp.NewContext(false, tmproto.Header{Height: 5})
+		ctx := app.BaseApp.NewContext(false, tmproto.Header{Height: 5, ChainID: chainID})
 		rs, ok := app.CommitMultiStore().(*rootmulti.Store)
 		if !ok {
 			panic("multistore is not a rootmulti.Store")
@@ -250,6 +259,21 @@ func authWorld(rng *Rng, n int, out *Out, replay string, variant int) {
 			for _, a := range addrs {
 				run(hc, a, k)
 				k++
+			}
+		}
+		if variant == 2 && NACC > 14 {
+			// the last stored holder of a role is removed: its very next message is refused (ETHBRIDGE is role 3, account 14)
+			var setPause handlerCase
+			for _, hc := range cases {
+				if hc.name == "SetPause" {
+					setPause = hc
+				}
+			}
+			run(setPause, addrs[14], 1)
+			run(cases[1], addrs[10], 3+6*14)
+			run(setPause, addrs[14], 2)
+			for _, a := range addrs[14:] {
+				run(setPause, a, 4)
 			}
 		}
 		// phase 2: the table evolves; after every AddAccount / RemoveAccount attempt, a burst of messages
@@ -429,6 +453,30 @@ func marginWorld(app *sifapp.SifchainApp, at func(h int64) sdk.Context, h0 int64
 	}
 }
 
+// builtinAdmins: the account addresses that appear in the admin tables compiled into the repository, read from its
+// exported functions at run time (14th.. accounts of every world; nobody has their keys)
+func builtinAdmins() []sdk.AccAddress {
+	var res []sdk.AccAddress
+	seen := map[string]bool{}
+	for _, a := range append(admintypes.ProdAdminAccounts(), admintypes.InitialAdminAccounts()...) {
+		acc, err := sdk.AccAddressFromBech32(a.AdminAddress)
+		if err != nil || seen[acc.String()] {
+			continue
+		}
+		seen[acc.String()] = true
+		res = append(res, acc)
+	}
+	return res
+}
+
+// worldChainID: the chain id is a dimension of the worlds: main net for worlds 0 and 2, something else for world 1
+func worldChainID(rng *Rng, variant int) string {
+	if variant == 1 {
+		return []string{"sifchain-testnet-1", "", "foochainid", "sifchain-devnet-1"}[rng.Intn(4)]
+	}
+	return "sifchain-1"
+}
+
 // roleGenesis writes the three role stores into the genesis file, in a mix of spellings:
 //
 //	x/admin  accounts 0..5 hold one role each, 6 holds two, 10 is a second ADMIN — all in canonical lower case;
@@ -443,6 +491,17 @@ func roleGenesis(app *sifapp.SifchainApp, gs sifapp.GenesisState, addrs []sdk.Ac
 	cdc.MustUnmarshalJSON(gs[admintypes.ModuleName], &ag)
 	add := func(r admintypes.AdminType, spelling string) {
 		ag.AdminAccounts = append(ag.AdminAccounts, &admintypes.AdminAccount{AdminType: r, AdminAddress: spelling})
+	}
+	if variant == 2 {
+		// sparse: two ADMINs and one ETHBRIDGE holder (a compiled-in address if there is one); no holder for anything else
+		add(admintypes.AdminType_ADMIN, addrs[4].String())
+		add(admintypes.AdminType_ADMIN, addrs[10].String())
+		add(admintypes.AdminType_ETHBRIDGE, addrs[len(addrs)-1].String())
+		if len(addrs) > 14 {
+			ag.AdminAccounts[len(ag.AdminAccounts)-1].AdminAddress = addrs[14].String()
+		}
+		gs[admintypes.ModuleName] = cdc.MustMarshalJSON(&ag)
+		return oracleClpGenesis(app, gs, addrs, rng, variant)
 	}
 	for i, r := range authRoles {
 		add(r, addrs[i].String())
@@ -467,7 +526,11 @@ func roleGenesis(app *sifapp.SifchainApp, gs sifapp.GenesisState, addrs []sdk.Ac
 		}
 	}
 	gs[admintypes.ModuleName] = cdc.MustMarshalJSON(&ag)
+	return oracleClpGenesis(app, gs, addrs, rng, variant)
+}
 
+func oracleClpGenesis(app *sifapp.SifchainApp, gs sifapp.GenesisState, addrs []sdk.AccAddress, rng *Rng, variant int) sifapp.GenesisState {
+	cdc := app.AppCodec()
 	var og oracletypes.GenesisState
 	cdc.MustUnmarshalJSON(gs[oracletypes.ModuleName], &og)
 	og.AdminAddress = addrs[7].String()
